@@ -516,7 +516,9 @@ func (c *Ctx) ruleT1() {
 						return
 					}
 				}
-				nSrc++
+				if !c.isControlFn(f) {
+					nSrc++
+				}
 				push(v, nil)
 			}
 		})
@@ -676,7 +678,13 @@ func (c *Ctx) ruleT1() {
 	c.Counts["T1:wire sources (reads of MessageExchangeHeads.Heads)"] = nSrc
 	c.floor("T1", "wire sources (reads of MessageExchangeHeads.Heads)", nSrc, 2)
 	c.Counts["T1:tainted values"] = len(tainted)
-	if len(hits) == 0 {
+	realHits := 0
+	for _, h := range hits {
+		if !c.isControlFn(h.call.Parent()) {
+			realHits++
+		}
+	}
+	if realHits == 0 {
 		c.ok("T1", "wire-heads→log-constructors", token.NoPos, fmt.Sprintf("no value derived from a received heads list reaches a log constructor, an entry map or Join (%d tainted values followed through %d functions); received entries influence a log only through their content address", len(tainted), len(fns)))
 	}
 	seen := map[string]bool{}
